@@ -648,6 +648,8 @@ def run(ctx):
     lap('dir requests: probe and model')
     vreqs = reqs[:len(cases)]
     sub = vreqs[::2] if ctx.quick else vreqs
+    if any('HANG' in e for e, _p in errs or []):
+        sub = []        # the implementation does not return on some line (reported above): the sanitized build would hang the same way
     aobs, _m, _q, aerrs = rc.run_ren(probe_asan, None, sub)
     for e, part in aerrs or []:
         # narrow down to one request
